@@ -357,11 +357,11 @@ theorem select_in_multi_partial (q : Quirks) (st : State) (now c : Nat) (r : Req
   apply exec_eq_fixed
   · cases r with
     | plain a o => simp [Benign]
-    | script sha cmds => simp [Benign]
+    | script sha cmds pcs => simp [Benign]
   · intro x hx
     cases x with
     | plain a o => intro _; exact hq _ hx a o rfl
-    | script sha cmds => simp [Benign]
+    | script sha cmds pcs => simp [Benign]
 
 /-! ### 7. Witnesses for the script path -/
 
@@ -452,5 +452,17 @@ example :
     getDb (run Switches.fixed {} {} evs).store 15 = [([98], ⟨.list [[121]], none⟩)] ∧
     getDb (run Switches.fixed {} {} evs).store 2 = [] ∧
     (run Switches.fixed {} {} evs).waiting = [] ∧ ((run Switches.fixed {} {} evs).conns 3).blocked = false := by decide
+
+/-- `redis.pcall` is handed the same database as `redis.call`: with database 9 selected, a script that pcalls a failing command
+    (`GET` without a key), goes on, pcalls `SET k v` and then `FLUSHDB` — every access is on database 9, database 0 keeps its
+    key, and the failed pcall did not abort the script. -/
+example :
+    let evs : List Dbs.Ev :=
+      [.req 1 2 (.plain [wSET, [122], [49]] none), .req 2 1 (.plain [wSELECT, [57]] none),
+       .req 3 1 (.script false [[wGET], [wSET, [107], [118]], [wDBSIZE], [wFLUSHDB]] [true, true, false, true])]
+    (run Switches.fixed {} {} evs).log.map (fun a => (a.path, a.db, a.sel)) =
+        [(.direct, 0, 0), (.script false, 9, 9), (.script false, 9, 9), (.script false, 9, 9), (.script false, 9, 9)] ∧
+    getDb (run Switches.fixed {} {} evs).store 9 = [] ∧
+    getDb (run Switches.fixed {} {} evs).store 0 = [([122], ⟨.str [49], none⟩)] := by decide
 
 end Ferrous.C18
